@@ -19,7 +19,7 @@ pub fn plan(tier: &str) -> u64 {
 
 fn n_single(tier: &str) -> u64 {
     if tier == "quick" {
-        320
+        800
     } else {
         10_000
     }
@@ -27,7 +27,7 @@ fn n_single(tier: &str) -> u64 {
 
 fn n_concurrent(tier: &str) -> u64 {
     if tier == "quick" {
-        8
+        16
     } else {
         80
     }
